@@ -144,6 +144,83 @@ impl vm_memory::WriteVolatile for Minimal {
     }
 }
 
+/// A stream whose first calls report ErrorKind::Interrupted (a signal arrived) before it behaves
+/// like `Minimal`: an interrupted call is retried whatever the length of the transfer.
+struct Interrupting(Minimal, usize);
+
+impl Interrupting {
+    fn hit(&mut self) -> bool {
+        if self.1 > 0 {
+            self.1 -= 1;
+            true
+        } else {
+            false
+        }
+    }
+}
+
+impl vm_memory::ReadVolatile for Interrupting {
+    fn read_volatile<B: BitmapSlice>(&mut self, buf: &mut VolatileSlice<B>) -> Result<usize, vm_memory::VolatileMemoryError> {
+        if self.hit() {
+            return Err(vm_memory::VolatileMemoryError::IOError(std::io::Error::from(std::io::ErrorKind::Interrupted)));
+        }
+        self.0.read_volatile(buf)
+    }
+}
+
+impl vm_memory::WriteVolatile for Interrupting {
+    fn write_volatile<B: BitmapSlice>(&mut self, buf: &VolatileSlice<B>) -> Result<usize, vm_memory::VolatileMemoryError> {
+        if self.hit() {
+            return Err(vm_memory::VolatileMemoryError::IOError(std::io::Error::from(std::io::ErrorKind::Interrupted)));
+        }
+        self.0.write_volatile(buf)
+    }
+}
+
+/// Stream forms with count 0 over streams that are interrupted once or twice first.
+fn stream_forms_interrupted<A: Copy + std::fmt::Debug, B: Bytes<A>>(k: &K, layer: &str, b: &B, addrs: &[(A, &str)], snapshot: &dyn Fn() -> Vec<u8>)
+where
+    B::E: std::fmt::Debug,
+{
+    for (a, class) in addrs {
+        for times in [1usize, 2] {
+            let args = format!("addr {:?} count 0, stream interrupted {} time(s) first", a, times);
+            k.form(layer, "read_volatile_from(count 0, interrupted source)", class, args.clone(), snapshot, &mut || {
+                let mut s = Interrupting(Minimal(vec![1, 2, 3], 0), times);
+                let r = want_ok(b.read_volatile_from(*a, &mut s, 0), |n| *n == 0);
+                if s.0 .1 != 0 {
+                    return Err("bytes were consumed from the source".into());
+                }
+                r
+            });
+            k.form(layer, "read_exact_volatile_from(count 0, interrupted source)", class, args.clone(), snapshot, &mut || {
+                let mut s = Interrupting(Minimal(vec![1, 2, 3], 0), times);
+                let r = want_ok(b.read_exact_volatile_from(*a, &mut s, 0), |_| true);
+                if s.0 .1 != 0 {
+                    return Err("bytes were consumed from the source".into());
+                }
+                r
+            });
+            k.form(layer, "write_volatile_to(count 0, interrupted sink)", class, args.clone(), snapshot, &mut || {
+                let mut s = Interrupting(Minimal(Vec::new(), 0), times);
+                let r = want_ok(b.write_volatile_to(*a, &mut s, 0), |n| *n == 0);
+                if !s.0 .0.is_empty() {
+                    return Err("bytes were handed to the sink".into());
+                }
+                r
+            });
+            k.form(layer, "write_all_volatile_to(count 0, interrupted sink)", class, args.clone(), snapshot, &mut || {
+                let mut s = Interrupting(Minimal(Vec::new(), 0), times);
+                let r = want_ok(b.write_all_volatile_to(*a, &mut s, 0), |_| true);
+                if !s.0 .0.is_empty() {
+                    return Err("bytes were handed to the sink".into());
+                }
+                r
+            });
+        }
+    }
+}
+
 /// Stream forms with count 0 over descriptor-backed and minimal streams (default exact methods).
 fn stream_forms_fd<A: Copy + std::fmt::Debug, B: Bytes<A>>(k: &K, layer: &str, b: &B, addrs: &[(A, &str)], snapshot: &dyn Fn() -> Vec<u8>)
 where
@@ -480,6 +557,7 @@ fn slice_layer(k: &K) {
             stream_forms(k, layer, &vs, &valid, &snap);
             stream_forms_fd(k, layer, &vs, &valid, &snap);
             stream_forms_states(k, layer, &vs, &valid, &snap);
+            stream_forms_interrupted(k, layer, &vs, &valid, &snap);
         }
         copy_forms(k, layer, &vs, &snap);
     }
@@ -498,6 +576,7 @@ where
     stream_forms(k, &layer, m, &valid, snapshot);
     stream_forms_fd(k, &layer, m, &valid, snapshot);
     stream_forms_states(k, &layer, m, &valid, snapshot);
+    stream_forms_interrupted(k, &layer, m, &valid, snapshot);
     // region level
     for (i, reg) in m.iter().enumerate() {
         let layer = format!("region({})", tag);
@@ -518,6 +597,7 @@ where
         stream_forms(k, &layer, reg, &valid, snapshot);
         stream_forms_fd(k, &layer, reg, &valid, snapshot);
         stream_forms_states(k, &layer, reg, &valid, snapshot);
+        stream_forms_interrupted(k, &layer, reg, &valid, snapshot);
         let _ = i;
         // slices handed out by the region
         if let Ok(vs) = reg.as_volatile_slice() {
